@@ -259,8 +259,10 @@ def run(ctx, rep, model=True):
     far_apart_fields(ctx, rep)
     n = 12 if ctx.quick else 50
     for i in range(n):
-        spec = plotgen.random_spec(ctx.rng, ndims=[3, 2][i % 2], nf=[3, 2, 4, 1, 7, 5][i % 6], data="bits", B=2,
-                                   layout=["scatter", "files", "perm"][i % 3])
+        thin = i % 4 == 2           # one-cell blocks: boxes one cell thick in some direction
+        spec = plotgen.random_spec(ctx.rng, ndims=[3, 2][i % 2], nf=[3, 2, 4, 1, 7, 5][i % 6], data="bits", B=1 if thin else 2,
+                                   nblk=[3, 2, 2][:[3, 2][i % 2]] if thin else None, layout=["scatter", "files", "perm"][i % 3])
+        if thin: rep.count("boxes-one-cell-thick")
         # index space reaching below zero (the domain's first cell has a negative index; its last one stays >= 0, which is
         # all the reader's own grid bookkeeping - not under test here - can cope with)
         spec["idx_shift"] = -ctx.rng.randint(1, min(spec["grid0"]) - 1) if (i % 5 in (2, 4) and min(spec["grid0"]) >= 2) else 0
